@@ -2,6 +2,7 @@ package rtmr
 
 import (
 	"errors"
+	"fmt"
 	"time"
 
 	"github.com/google/go-eventlog/extract"
@@ -10,6 +11,7 @@ import (
 	pb "github.com/google/go-tdx-guest/proto/tdx"
 	"github.com/google/go-tdx-guest/validate"
 	"github.com/google/go-tdx-guest/verify"
+	"github.com/google/go-tdx-guest/verify/trust"
 	vp "github.com/google/go-tdx-guest/zzvp"
 	"github.com/google/go-tdx-guest/zzvp/q"
 )
@@ -48,8 +50,17 @@ func m_verifyTdxQuote(quote any, options *verify.Options) error {
 	if verifyOK {
 		return nil
 	}
+	// a failed verification may be of any kind, including the typed download errors
+	switch verifyErrKind {
+	case 1:
+		return fmt.Errorf("unable to receive PCK CRL: %w", verify.CRLUnavailableErr{})
+	case 2:
+		return fmt.Errorf("unable to receive tcbInfo: %w", &trust.AttestationRecreationErr{Msg: "network"})
+	}
 	return errVerify
 }
+
+var verifyErrKind int
 
 func replayOK(table, log []byte, bank register.RTMRBank) bool {
 	args := []any{vp.GhostGet(table, "content-id"), vp.GhostGet(log, "content-id"), len(bank.RTMRs)}
@@ -87,6 +98,8 @@ func h18(policyKind int) {
 	vp.GhostSet(table, "content-id", vp.U64("table_id"))
 	vp.GhostSet(log, "content-id", vp.U64("log_id"))
 	verifyOK = vp.Bool("verification_verdict")
+	verifyErrKind = vp.Choose("verification_error_kind", 3)
+	loader := extract.Bootloader(vp.Choose("loader", 2)) // UnsupportedLoader or GRUB
 	pol := &validate.Options{}
 	switch policyKind {
 	case 1:
@@ -96,7 +109,7 @@ func h18(policyKind int) {
 		pol.HeaderOptions.MinimumQeSvn = vp.U16("min_qesvn")
 	}
 	vopts := &verify.Options{}
-	opts := &ParseTdxCcelOpts{Validation: pol, Verification: vopts, ExtractOpt: extract.Opts{Loader: extract.GRUB}}
+	opts := &ParseTdxCcelOpts{Validation: pol, Verification: vopts, ExtractOpt: extract.Opts{Loader: loader}}
 	st, err := ParseCcelWithTdQuote(log, table, quote, opts)
 	polErr := validate.TdxQuote(quote, pol)
 	vp.Reach("state-returned", st != nil)
@@ -109,7 +122,7 @@ func h18(policyKind int) {
 	vp.Assert("state-only-if-verification-passed", vp.Implies(st != nil, verifyOK))
 	vp.Assert("state-only-if-policy-satisfied", vp.Implies(st != nil, polErr == nil))
 	if st != nil {
-		vp.Assert("replayed-once-with-the-given-log-and-table", vp.And(replayCalls == 1, vp.SameObject(replayTable, table), vp.SameObject(replayLog, log), replayOpt.Loader == extract.GRUB))
+		vp.Assert("replayed-once-with-the-given-log-and-table", vp.And(replayCalls == 1, vp.SameObject(replayTable, table), vp.SameObject(replayLog, log), replayOpt.Loader == loader))
 		vp.Assert("bank-has-the-quotes-four-rtmrs", len(replayBank.RTMRs) == 4)
 		if len(replayBank.RTMRs) == 4 {
 			want := register.RTMRBank{}
